@@ -74,14 +74,20 @@ enum GroupKind {
 }
 
 enum BlockPartition {
-    RequiresGroup(GroupKind, Vec<(String, StmtSemicolon)>),
+    /// The group kind, whether any statement of the group must not be formatted, and the named statements
+    RequiresGroup(GroupKind, bool, Vec<(String, StmtSemicolon)>),
     Other(Vec<StmtSemicolon>),
 }
 
-fn partition_nodes_into_groups(block: &Block) -> Vec<BlockPartition> {
+fn partition_nodes_into_groups(ctx: &Context, block: &Block) -> Vec<BlockPartition> {
     let mut parts = Vec::new();
+    let mut ctx = *ctx;
 
     for stmt in block.stmts_with_semicolon() {
+        // Track `-- stylua: ignore start` / `-- stylua: ignore end` regions
+        ctx = ctx.check_toggle_formatting(&stmt.0);
+        let is_ignored = !matches!(ctx.should_format_node(&stmt.0), FormatNode::Normal);
+
         if let Stmt::LocalAssignment(node) = &stmt.0 {
             if node.names().len() == 1 && node.expressions().len() == 1 {
                 let name = node.names().iter().next().unwrap();
@@ -101,12 +107,12 @@ fn partition_nodes_into_groups(block: &Block) -> Vec<BlockPartition> {
                     let create_new_block = match parts.last() {
                         None => true,
                         Some(BlockPartition::Other(_)) => true,
-                        Some(BlockPartition::RequiresGroup(other_kind, _))
+                        Some(BlockPartition::RequiresGroup(other_kind, _, _))
                             if *other_kind != expression_kind =>
                         {
                             true
                         }
-                        Some(BlockPartition::RequiresGroup(_, list)) => {
+                        Some(BlockPartition::RequiresGroup(_, _, list)) => {
                             let previous_require =
                                 list.last().expect("unreachable!: empty require group");
                             let position = previous_require
@@ -120,11 +126,16 @@ fn partition_nodes_into_groups(block: &Block) -> Vec<BlockPartition> {
                     };
 
                     if create_new_block {
-                        parts.push(BlockPartition::RequiresGroup(expression_kind, Vec::new()))
+                        parts.push(BlockPartition::RequiresGroup(
+                            expression_kind,
+                            false,
+                            Vec::new(),
+                        ))
                     }
 
                     match parts.last_mut() {
-                        Some(BlockPartition::RequiresGroup(_, map)) => {
+                        Some(BlockPartition::RequiresGroup(_, any_ignored, map)) => {
+                            *any_ignored |= is_ignored;
                             map.push((variable_name, stmt.clone()))
                         }
                         _ => unreachable!(),
@@ -138,7 +149,7 @@ fn partition_nodes_into_groups(block: &Block) -> Vec<BlockPartition> {
         // Handle as a non-require
         if parts.is_empty() {
             parts.push(BlockPartition::Other(Vec::new()))
-        } else if let Some(BlockPartition::RequiresGroup(_, _)) = parts.last() {
+        } else if let Some(BlockPartition::RequiresGroup(_, _, _)) = parts.last() {
             parts.push(BlockPartition::Other(Vec::new()))
         }
 
@@ -155,7 +166,7 @@ pub(crate) fn sort_requires(ctx: &Context, input_ast: Ast) -> Ast {
     let block = input_ast.nodes();
 
     // Find all `local NAME = require(EXPR)` lines
-    let parts = partition_nodes_into_groups(block);
+    let parts = partition_nodes_into_groups(ctx, block);
 
     // If there is only one non-require partition, or no partitions at all
     // then just return the original AST
@@ -169,12 +180,9 @@ pub(crate) fn sort_requires(ctx: &Context, input_ast: Ast) -> Ast {
     let mut stmts: Vec<StmtSemicolon> = Vec::new();
     for part in parts {
         match part {
-            BlockPartition::RequiresGroup(_, mut list) => {
+            BlockPartition::RequiresGroup(_, any_ignored, mut list) => {
                 // If any of the block is ignored, then ignore the whole thing
-                if list
-                    .iter()
-                    .any(|(_, stmt)| !matches!(ctx.should_format_node(stmt), FormatNode::Normal))
-                {
+                if any_ignored {
                     stmts.extend(list.iter().map(|x| x.1.clone()));
                     continue;
                 }
